@@ -3,3 +3,4 @@ import Dasp.Props.C01
 import Dasp.Props.C06
 import Dasp.Props.C12
 import Dasp.Props.C13
+import Dasp.Props.C09
